@@ -53,12 +53,10 @@ fn check_string(ctx: &mut Ctx, s: &str) {
         (Expect::DontCare, Ok(_)) => (None, String::new()),
         (Expect::Ok(v), Ok(Ok(id))) => {
             if id.as_u32() == *v {
-                // the comparison operators against text parse the text the same way
-                match guard(|| (*id == s, *id == *s, HpoTermId::from(s.to_string()) == *id)) {
-                    Ok((true, true, true)) => (None, String::new()),
-                    Ok(other) => (Some("id == text / From<String> disagree with try_from on a text that parses to this id"), format!("(id == &str, id == str, from(String) == id) = {other:?}")),
-                    Err(msg) => (Some("id == text / From<String> panic on a text that try_from accepts"), format!("panic: {msg}")),
-                }
+                // (how `id == text` and `From<String>` treat a NON-canonical spelling that try_from accepts - "HP:118",
+                // "XYZ0000118", a 70 000-byte zero run - is not part of the statement: they are only exercised on the
+                // canonical rendering of every id, in check_id)
+                (None, String::new())
             } else {
                 (Some("returns a different id than the decimal number in the text"), format!("Ok({})", id.as_u32()))
             }
@@ -104,25 +102,14 @@ fn check_id(ctx: &mut Ctx, v: u32) {
         if HpoTermId::from(v) != id || id.as_u32() != v {
             return Some(("HpoTermId::from_u32/as_u32", "from_u32/as_u32/From<u32> disagree", format!("{v}")));
         }
-        // the remaining conversions of the same number / the same canonical text
-        if HpoTermId::from(v as u64) != id || HpoTermId::from(v as usize) != id || (v <= u16::MAX as u32 && HpoTermId::from(v as u16) != id) {
-            return Some(("HpoTermId::from(u64 | usize | u16)", "integer conversions disagree with from_u32", format!("{v}")));
-        }
+        // the other two ways of reading the canonical text ("parsing that rendering returns the same id"); the integer
+        // conversions From<u64 | usize | u16>, to_usize and the order of ids are not text or byte conversions and are
+        // not in the statement (the order of ids is C12's subject): not demanded here
         if HpoTermId::from(text.clone()) != id {
             return Some(("HpoTermId::from(String)", "from(render(id)) != id", format!("{v}")));
         }
         if !(id == *text.as_str()) || !(id == text.as_str()) {
             return Some(("HpoTermId: PartialEq<str>", "id != its own rendering", format!("{v}")));
-        }
-        if id.to_usize() != v as usize {
-            return Some(("HpoTermId::to_usize", "to_usize is not the number of the id", format!("{v} -> {}", id.to_usize())));
-        }
-        // the order of ids is the order of their numbers (sorted id groups rely on it)
-        if v < u32::MAX {
-            let next = HpoTermId::from_u32(v + 1);
-            if !(id < next) || id == next || id.cmp(&next) != std::cmp::Ordering::Less {
-                return Some(("HpoTermId: Ord", "order of ids is not the order of their numbers", format!("{v} vs {}", v + 1)));
-            }
         }
         None
     });
@@ -136,10 +123,11 @@ fn check_id(ctx: &mut Ctx, v: u32) {
 pub const ALPHABET: [&str; 15] = ["H", "P", ":", "0", "1", "9", "+", "-", " ", "\u{e9}", "\u{20ac}", "\u{1F600}", "\n", "\t", "\u{a0}"];
 
 pub fn run(ctx: &mut Ctx) {
-    ctx.rule = "ids: every id 0..10^7 in blocks of 10^4 plus u32 borders; strings: every string of <= L symbols over {H,P,:,0,1,9,+,-,space,é,€,😀,\\n,\\t,NBSP} (L=6 quick, 7 thorough) plus digit strings around u32::MAX; a case is distinct by construction; non-trivial = string of >= 4 bytes (passes the length guard) or an id".into();
+    ctx.rule = "ids: every id 0..10^7 in blocks of 10^4 plus u32 borders; strings: every string of <= L symbols over {H,P,:,0,1,9,+,-,space,é,€,😀,\\n,\\t,NBSP} (L=6 quick, 7 thorough) plus digit strings around u32::MAX, digit runs of every length 1..=10 with one or two positions replaced, zero-led runs with radix letters, long inputs; a case is distinct by construction; non-trivial = string of >= 4 bytes (passes the length guard) or an id".into();
     ctx.assumptions = vec![
         "a '+' sign directly after the 3-byte prefix is don't-care (u32::from_str accepts it, the property is silent)".into(),
         "the 3-byte prefix itself is not inspected (the property only constrains the text after it)".into(),
+        "`id == text` and `From<String>` are exercised on the canonical rendering of every id only; what they do with another spelling that try_from accepts, the integer conversions From<u64 | usize | u16> / to_usize and the order of ids are not part of the statement".into(),
     ];
 
     // ---- Space A: ids
@@ -373,5 +361,59 @@ pub fn run(ctx: &mut Ctx) {
             }
             ctx.nontrivials(n);
         }
+    }
+    // ---- Space F: a leading zero followed by a LETTER, and the other spellings a "smart" integer parser accepts
+    // (radix prefixes 0x / 0b / 0o, digit separators, type suffixes, exponents): the digit run of Space D has its only
+    // '0' at index 7 and Space B's alphabet has no letter besides H and P, so "HP:0x10" was never formed
+    ctx.space("strings/zero-led-runs-and-radix-prefixes", "prefixes {HP:, XYZ, 3-byte euro sign} x three zero-led runs of every length 1..=10 (0123456789 cut to the length; 0 followed by ones; all zeros) x every single position replaced by each of the 128 ASCII bytes, and positions (1, p) replaced by (x|X|b|B|o|O, a|f|F|_) for every p >= 2; plus 60 literal spellings (0x10, 0X1F, 0b11, 0o17, 1_000, 1e3, 10u32, #10, 0x, ...) behind the same prefixes; one case per (prefix, length) and one for the literals");
+    for prefix in ["HP:", "XYZ", "\u{20ac}"] {
+        for len in 1..=10usize {
+            if !ctx.take() {
+                continue;
+            }
+            ctx.state();
+            let mut n = 0u64;
+            let bases: [String; 3] = ["0123456789"[..len].to_string(), format!("0{}", "1".repeat(len - 1)), "0".repeat(len)];
+            for base in &bases {
+                let digits: Vec<char> = base.chars().collect();
+                for pos in 0..len {
+                    for b in 0u8..128 {
+                        let mut t = digits.clone();
+                        t[pos] = b as char;
+                        check_string(ctx, &format!("{prefix}{}", t.iter().collect::<String>()));
+                        n += 1;
+                    }
+                }
+                for radix in ['x', 'X', 'b', 'B', 'o', 'O'] {
+                    for pos in 2..len {
+                        for c in ['a', 'f', 'F', '_'] {
+                            let mut t = digits.clone();
+                            t[1] = radix;
+                            t[pos] = c;
+                            check_string(ctx, &format!("{prefix}{}", t.iter().collect::<String>()));
+                            n += 1;
+                        }
+                    }
+                }
+            }
+            ctx.nontrivials(n);
+            ctx.sample(|| json!({"prefix": prefix, "runs": bases, "strings": n}));
+        }
+    }
+    if ctx.take() {
+        ctx.state();
+        let literals = [
+            "0x10", "0X1F", "0x0", "0x", "0xff", "0xFFFFFFFF", "0x00000076", "0b11", "0B11", "0b0", "0b", "0o17", "0O17", "0o0", "0o", "017", "0017", "00x10", "x10", "h10", "10h", "1_000", "1_0", "_1", "1_", "0_0", "1e3", "1E3", "1e0", "1.0", "1.", ".1", "10u32", "10U", "10u", "10i32", "10L", "10l",
+            "#10", "$10", "&h10", "0d10", "0t10", "1'000", "1,000", "1 000", "0x1_0", "0b1_1", "١٠", "0x١", "0xg", "0b2", "0o8", "0x-1", "-0x1", "+0x10", "0+1", "1+0", "0x+1", "0e0",
+        ];
+        let mut n = 0u64;
+        for prefix in ["HP:", "XYZ", "\u{20ac}"] {
+            for l in literals {
+                check_string(ctx, &format!("{prefix}{l}"));
+                n += 1;
+            }
+        }
+        ctx.nontrivials(n);
+        ctx.sample(|| json!({"literals": literals.len(), "example": "HP:0x10"}));
     }
 }
